@@ -299,22 +299,39 @@ func C16(r *vf.Run) {
 				calls, _, _ := genHistory(g, histOpts{maxCalls: 60, listing: listing, dataBlocks: g.Intn(4) == 0, withRefs: true, withDup: g.Intn(4) == 0})
 				names := labelNames(calls)
 				hs := func() []string { return histStrings(calls) }
-				direct := asm.NewEmitter(make([]byte, 16384), listing)
-				for _, c := range calls {
-					invoke(direct, c)
+				// points of the sequence at which every reference made so far is resolvable: a caller that
+				// finalizes after every chunk calls Finalize there (on the original, between clones)
+				finalizable := make([]bool, len(calls)+1)
+				{
+					sh := newShadow(listing)
+					for i, c := range calls {
+						finalizable[i] = len(sh.refs) > 0 && sh.expectFinalize().ok
+						if sh.legal(c) {
+							sh.apply(c)
+						}
+					}
 				}
-				want := observeFull(direct, names, listing)
-				wantFin, _ := finalizeOutcome(direct)
-				wantFinBytes := append([]byte(nil), direct.Bytes()...)
 				for rep := 0; rep < 4; rep++ {
-					t := &cloneTree{g: g, nilMode: g.Intn(5) == 0, cells: cells}
+					t := &cloneTree{g: g, nilMode: g.Intn(5) == 0, cells: cells, finAt: map[int]bool{}}
 					var buf []byte
 					if !t.nilMode {
 						buf = make([]byte, 16384)
+						t.finalizable = finalizable
 					}
 					root := asm.NewEmitter(buf, listing)
 					r.Eval(1)
 					pan := vf.Try(func() { t.feed(root, buf, calls, 0) })
+					// the oracle: the same calls (and the same Finalize calls) made directly
+					direct := asm.NewEmitter(make([]byte, 16384), listing)
+					for i, c := range calls {
+						if t.finAt[i] {
+							_ = direct.Finalize()
+						}
+						invoke(direct, c)
+					}
+					want := observeFull(direct, names, listing)
+					wantFin, _ := finalizeOutcome(direct)
+					wantFinBytes := append([]byte(nil), direct.Bytes()...)
 					if pan != nil {
 						r.Fail("clone-tree-panic", fmt.Sprintf("emitting through %s panicked: %v", t.describe(), pan), map[string]interface{}{"calls": hs(), "tree": t.log})
 						continue
@@ -369,6 +386,10 @@ type cloneTree struct {
 	log     []string
 	maxDep  int
 	nclone  int
+	// finalizable[i]: Finalize may be called on the root before calls[i] (everything referenced so far
+	// resolves); finAt records where it was
+	finalizable []bool
+	finAt       map[int]bool
 }
 
 func (t *cloneTree) describe() string {
@@ -388,6 +409,14 @@ func (t *cloneTree) feed(e *asm.Emitter, buf []byte, calls []hcall, depth int) {
 		t.cells["tree:depth2"]++
 	}
 	for i := 0; i < len(calls); {
+		if depth == 0 && t.finalizable != nil && t.finalizable[i] && g.Intn(5) == 0 {
+			if err := e.Finalize(); err != nil {
+				panic(fmt.Errorf("Finalize before call #%d failed although everything referenced so far resolves: %v", i, err))
+			}
+			t.finAt[i] = true
+			t.log = append(t.log, fmt.Sprintf("Finalize() on the original before call #%d", i))
+			t.cells["tree:finalize-between-clones"]++
+		}
 		if depth >= 4 || g.Intn(5) != 0 {
 			invoke(e, calls[i])
 			i++
@@ -471,6 +500,8 @@ func (t *cloneTree) feed(e *asm.Emitter, buf []byte, calls []hcall, depth int) {
 	}
 }
 
+func failedHere(r *vf.Run, before int) bool { return r.Violations() != before }
+
 func containsPlus(s, part string) bool {
 	for _, p := range splitPlus(s) {
 		if p == part {
@@ -505,7 +536,8 @@ func C19(r *vf.Run) {
 			cells := map[string]int64{}
 			for k := 0; k < 24 && !r.TooMany(); k++ {
 				listing := g.Intn(3) == 0
-				calls, _, _ := genHistory(g, histOpts{maxCalls: 60, listing: listing, dataBlocks: g.Intn(3) == 0, withRefs: true, withDup: g.Intn(5) == 0, rebase: g.Intn(3) == 0})
+				rebase := g.Intn(3) == 0
+				calls, _, _ := genHistory(g, histOpts{maxCalls: 60, listing: listing, dataBlocks: g.Intn(3) == 0, withRefs: true, withDup: g.Intn(5) == 0, rebase: rebase})
 				names := labelNames(calls)
 				hs := func() []string { return histStrings(calls) }
 				// program size and call boundaries from the shadow
@@ -539,6 +571,7 @@ func C19(r *vf.Run) {
 					}
 					e := asm.NewEmitter(buf[:capacity:capacity], listing)
 					sh := newShadow(listing)
+					before0 := r.Violations()
 					r.Eval(1)
 					for i, c := range calls {
 						legal := sh.legal(c)
@@ -600,6 +633,25 @@ func C19(r *vf.Run) {
 							cells[fmt.Sprintf("refused:%s:short%d", kind, sc)]++
 						}
 						sh.flags = byte(e.Flags()) // a refused REP/SEP may still have moved the tracker (not judged)
+					}
+					// "refused as a whole": what the emitter goes on to do must be what it would do had the
+					// refused calls never been made - resolve the references of the accepted calls, no others
+					if !failedHere(r, before0) && !rebase { // (label resolution is specified for one base only)
+						fe := sh.expectFinalize()
+						var ferr error
+						pan := vf.Try(func() { ferr = e.Finalize() })
+						switch {
+						case pan != nil:
+							r.Fail("finalize-after-refusals-panics", fmt.Sprintf("capacity %d: Finalize after the history (with refused calls) panicked: %v", capacity, pan), hs())
+						case fe.ok && ferr != nil:
+							r.Fail("finalize-after-refusals-fails", fmt.Sprintf("capacity %d: every reference of the accepted calls is resolvable, but Finalize reports %v", capacity, ferr), hs())
+						case !fe.ok && ferr == nil:
+							r.Fail("finalize-after-refusals-succeeds", fmt.Sprintf("capacity %d: Finalize succeeded although accepted calls reference undefined or out-of-range labels", capacity), hs())
+						case fe.ok && string(e.Bytes()) != string(fe.code):
+							r.Fail("finalize-after-refusals-bytes", fmt.Sprintf("capacity %d: after Finalize byte %d differs from the accepted calls' finalized encoding", capacity, firstDiff(e.Bytes(), fe.code)), hs())
+						default:
+							cells[fmt.Sprintf("finalize-after-refusals:ok=%v", fe.ok)]++
+						}
 					}
 				}
 				if ci == 0 && k < 2 {
